@@ -1,6 +1,6 @@
 """C08 - order and logical-relation predicates on concepts match their extents."""
 
-from vlib import gen, lib, tablecheck
+from vlib import gen, latcheck, lib, tablecheck
 from vlib.latcheck import Built, pairs
 from vlib.oracle import positions
 
@@ -27,46 +27,53 @@ def check_one(case, ctx, deep):
         cs = ref.concepts
         k = len(cs)
         allobj = set(range(ref.n))
-        for i, j in pairs(k, rnd):
-            x, y = by[i], by[j]
-            ex, ey = set(positions(cs[i][0])), set(positions(cs[j][0]))
-            ix, iy = set(positions(cs[i][1])), set(positions(cs[j][1]))
-            le, ge = ex <= ey, ex >= ey
-            q = lambda: {'table': plain, 'pair': [sorted(ex), sorted(ey)]}
-            ctx.check((iy <= ix) == le and (ix <= iy) == ge, 'reference-duality', q, 'reference model inconsistent')
-            if i == j:
-                cl = 'equal'
-            elif le or ge:
-                cl = 'comparable'
-            elif ex & ey:
-                cl = 'incomparable-overlap'
-            else:
-                cl = 'incomparable-disjoint'
-            classes = [cl]
-            if ex | ey == allobj:
-                classes.append('covering')
-            if not ex or not ey:
-                classes.append('empty-extent')
-            bottom_nonempty = bool(cs[0][0]) and (i == 0 or j == 0)
-            if bottom_nonempty:
-                classes.append('nonempty-bottom')
-            if rep == 0:
-                ctx.case(q, cl.startswith('incomparable') or bottom_nonempty, classes)
-            want = {'<=': le, 'implies': le, '>=': ge, 'subsumes': ge,
-                    '<': le and ex != ey, 'properly_implies': le and ex != ey,
-                    '>': ge and ex != ey, 'properly_subsumes': ge and ex != ey,
-                    'incompatible_with': not (ex & ey),
-                    'complement_of': not (ex & ey) and (ex | ey) == allobj,
-                    'subcontrary_with': bool(ex & ey) and (ex | ey) == allobj,
-                    'orthogonal_to': bool(ex & ey) and not le and not ge and (ex | ey) != allobj}
-            got = {'<=': lambda: x <= y, '>=': lambda: x >= y, '<': lambda: x < y, '>': lambda: x > y}
-            for name in want:
-                fn = got.get(name) or (lambda name=name: getattr(x, name)(y))
-                res = ctx.call(name, q, fn)
-                ctx.check(bool(res) == want[name], name, q,
-                          lambda: f'{x.extent} {name} {y.extent} gives {res!r}, want {want[name]}')
-            if i != j:
-                ctx.check(not (x <= y and y <= x), 'antisymmetry', q, 'distinct concepts mutually <=')
+        passes = [('', by, pairs(k, rnd))]
+        if rep == 0 and deep:
+            # the same predicates on concepts whose context and lattice objects were dropped by the caller
+            orphan = latcheck.orphans(case, ctx, plain)
+            if orphan:
+                passes.append(('orphans/', orphan, pairs(k, rnd, limit=12, sample=40)))
+        for tag, objs, which in passes:
+            for i, j in which:
+                x, y = objs[i], objs[j]
+                ex, ey = set(positions(cs[i][0])), set(positions(cs[j][0]))
+                ix, iy = set(positions(cs[i][1])), set(positions(cs[j][1]))
+                le, ge = ex <= ey, ex >= ey
+                q = lambda: {'table': plain, 'pair': [sorted(ex), sorted(ey)], **({'orphans': True} if tag else {})}
+                ctx.check((iy <= ix) == le and (ix <= iy) == ge, 'reference-duality', q, 'reference model inconsistent')
+                if i == j:
+                    cl = 'equal'
+                elif le or ge:
+                    cl = 'comparable'
+                elif ex & ey:
+                    cl = 'incomparable-overlap'
+                else:
+                    cl = 'incomparable-disjoint'
+                classes = [cl]
+                if ex | ey == allobj:
+                    classes.append('covering')
+                if not ex or not ey:
+                    classes.append('empty-extent')
+                bottom_nonempty = bool(cs[0][0]) and (i == 0 or j == 0)
+                if bottom_nonempty:
+                    classes.append('nonempty-bottom')
+                if rep == 0 and not tag:
+                    ctx.case(q, cl.startswith('incomparable') or bottom_nonempty, classes)
+                want = {'<=': le, 'implies': le, '>=': ge, 'subsumes': ge,
+                        '<': le and ex != ey, 'properly_implies': le and ex != ey,
+                        '>': ge and ex != ey, 'properly_subsumes': ge and ex != ey,
+                        'incompatible_with': not (ex & ey),
+                        'complement_of': not (ex & ey) and (ex | ey) == allobj,
+                        'subcontrary_with': bool(ex & ey) and (ex | ey) == allobj,
+                        'orthogonal_to': bool(ex & ey) and not le and not ge and (ex | ey) != allobj}
+                got = {'<=': lambda: x <= y, '>=': lambda: x >= y, '<': lambda: x < y, '>': lambda: x > y}
+                for name in want:
+                    fn = got.get(name) or (lambda name=name: getattr(x, name)(y))
+                    res = ctx.call(tag + name, q, fn)
+                    ctx.check(bool(res) == want[name], tag + name, q,
+                              lambda: f'{x.extent} {name} {y.extent} gives {res!r}, want {want[name]}')
+                if i != j:
+                    ctx.check(not (x <= y and y <= x), 'antisymmetry', q, 'distinct concepts mutually <=')
 
 
 def plan(tier, seed):
